@@ -55,6 +55,8 @@ def _judge(mods, ndecl, dialect):
             return False
         if not f.check_leaves(tree, mo.expect):
             return False
+        if not f.check_pairs(tree, mo.pairs):
+            return False
     return True
 
 
